@@ -1421,24 +1421,56 @@ func c09(r *core.Run) {
 				}
 			}
 			// the reducers: the function values handed to Reduce (closure, or method value of a small accumulator type)
-			var reducers []*ssa.Function
+			type reducer struct {
+				g  *ssa.Function
+				mc *ssa.MakeClosure // where the closure is created (its bindings resolve g's free variables)
+			}
+			var reducers []reducer
 			for _, rc := range core.Calls(rd.f, core.CallTo(rwReduce)) {
 				switch x := core.Strip(core.Forward(core.Args(rc)[1])).(type) {
 				case *ssa.MakeClosure:
 					g := x.Fn.(*ssa.Function)
+					mc := x
 					if g.Synthetic != "" {
 						if mo, ok := g.Object().(*types.Func); ok {
 							if m := p.SSA.FuncValue(mo); m != nil && m.Blocks != nil {
-								g = m
+								g, mc = m, nil
 							}
 						}
 					}
-					reducers = append(reducers, g)
+					reducers = append(reducers, reducer{g, mc})
 				case *ssa.Function:
-					reducers = append(reducers, x)
+					reducers = append(reducers, reducer{x, nil})
 				}
 			}
-			for _, g := range reducers {
+			// judge decides one update of the accumulator: at `at` of fn the accumulator (whose previous
+			// value is recognised by old) becomes val.
+			judge := func(fn *ssa.Function, at ssa.Instruction, val ssa.Value, old func(v ssa.Value) bool) {
+				n++
+				got := a.Norm(val)
+				same := func(v ssa.Value) bool { return a.Norm(v).Equal(got) }
+				switch rd.shape {
+				case "max":
+					if !got.Equal(core.ParsePoly("Sum")) {
+						o.Fail(p.InstrPos(at), "%s accumulates %s, expected Bucket.Sum", core.FuncName(rd.f), got)
+					}
+					if w := core.Requires(fn, core.Is(at), core.Cmp(token.GTR, same, old)); w != nil {
+						o.Fail(p.InstrPos(at), "%s overwrites its maximum without the test Sum > result", core.FuncName(rd.f))
+					}
+				case "min":
+					if !got.Equal(core.ParsePoly("round(div(Sum, Count))")) {
+						o.Fail(p.InstrPos(at), "%s accumulates %s, expected round(Sum/Count)", core.FuncName(rd.f), got)
+					}
+					if w := core.Requires(fn, core.Is(at), core.Cmp(token.LSS, same, old)); w != nil {
+						o.Fail(p.InstrPos(at), "%s overwrites its minimum without the test avg < result", core.FuncName(rd.f))
+					}
+					if w := core.Requires(fn, core.Is(at), core.Cmp(token.GTR, core.FieldLoad("Bucket.Count"), core.IsConstInt(0))); w != nil {
+						o.Fail(p.InstrPos(at), "%s divides by the count of an empty bucket", core.FuncName(rd.f))
+					}
+				}
+			}
+			for _, rdc := range reducers {
+				g := rdc.g
 				r.Fn(core.FuncName(g))
 				// accumulator stores: stores through captured state (free variable, or the receiver / its fields)
 				for _, st := range core.Instrs(g, func(in ssa.Instruction) bool {
@@ -1456,33 +1488,26 @@ func c09(r *core.Run) {
 					}
 					return false
 				}) {
-					n++
 					s := st.(*ssa.Store)
-					got := a.Norm(s.Val)
 					old := func(v ssa.Value) bool {
 						u, ok := core.Strip(v).(*ssa.UnOp)
 						return ok && u.Op == token.MUL && core.Describe(u.X) == core.Describe(s.Addr)
 					}
-					same := func(v ssa.Value) bool { return a.Norm(v).Equal(got) }
-					switch rd.shape {
-					case "max":
-						if !got.Equal(core.ParsePoly("Sum")) {
-							o.Fail(p.InstrPos(st), "%s accumulates %s, expected Bucket.Sum", core.FuncName(rd.f), got)
+					// acc = step(acc, b): the update is what the step function returns for the previous
+					// accumulator and the same bucket — judged inside the step function, one update per
+					// way of returning something else than the previous accumulator
+					if h, accPar := c09StepFunction(g, rdc.mc, s.Val, old); h != nil {
+						r.Fn(core.FuncName(h))
+						isAcc := func(v ssa.Value) bool { return c09SameValue(v) == ssa.Value(accPar) }
+						for _, u := range c09ReturnedUpdates(h) {
+							if isAcc(u.val) {
+								continue // the accumulator is kept
+							}
+							judge(h, u.at, u.val, isAcc)
 						}
-						if w := core.Requires(g, core.Is(st), core.Cmp(token.GTR, same, old)); w != nil {
-							o.Fail(p.InstrPos(st), "%s overwrites its maximum without the test Sum > result", core.FuncName(rd.f))
-						}
-					case "min":
-						if !got.Equal(core.ParsePoly("round(div(Sum, Count))")) {
-							o.Fail(p.InstrPos(st), "%s accumulates %s, expected round(Sum/Count)", core.FuncName(rd.f), got)
-						}
-						if w := core.Requires(g, core.Is(st), core.Cmp(token.LSS, same, old)); w != nil {
-							o.Fail(p.InstrPos(st), "%s overwrites its minimum without the test avg < result", core.FuncName(rd.f))
-						}
-						if w := core.Requires(g, core.Is(st), core.Cmp(token.GTR, core.FieldLoad("Bucket.Count"), core.IsConstInt(0))); w != nil {
-							o.Fail(p.InstrPos(st), "%s divides by the count of an empty bucket", core.FuncName(rd.f))
-						}
+						continue
 					}
+					judge(g, st, s.Val, old)
 				}
 			}
 		}
